@@ -225,18 +225,8 @@ func (e *Engine) newMapIter(m *Map) *mapIter {
 			it.order = append(it.order, en)
 		}
 	}
-	if e.nondetMapOrder && len(it.order) > 1 {
-		// Lehmer-code permutation drawn from decision variables
-		n := len(it.order)
-		rest := append([]*mapEntry(nil), it.order...)
-		perm := make([]*mapEntry, 0, n)
-		for len(rest) > 1 {
-			c := e.choose(len(rest), "maporder")
-			perm = append(perm, rest[c])
-			rest = append(rest[:c], rest[c+1:]...)
-		}
-		perm = append(perm, rest[0])
-		it.order = perm
+	if e.nondetMapOrder && len(it.order) > 1 && e.mapOrderBudget != 0 {
+		it.order = e.perturbOrder(it.order)
 	}
 	return it
 }
@@ -251,4 +241,51 @@ func (it *mapIter) next() (k, v V, ok bool) {
 		return en.k, en.v, true
 	}
 	return V{}, V{}, false
+}
+
+// perturbOrder picks an iteration order for a map range through decision variables.
+//
+// Unlimited budget (mapOrderBudget < 0): every permutation (Lehmer code), n! paths per range.
+// Budget k > 0: at most k ranges per path iterate in a perturbed order, all others in insertion
+// order. A perturbed range of n <= 3 entries takes any of its n!-1 other permutations; a larger
+// one takes an adjacent transposition (n-1 choices), the reversal or a rotation by one. Adjacent
+// transpositions generate every permutation, so an output that depends on the order of ONE
+// range is caught; dependence that needs several ranges perturbed at once needs a larger budget.
+func (e *Engine) perturbOrder(order []*mapEntry) []*mapEntry {
+	n := len(order)
+	if e.mapOrderBudget < 0 || n <= 3 {
+		rest := append([]*mapEntry(nil), order...)
+		perm := make([]*mapEntry, 0, n)
+		changed := false
+		for len(rest) > 1 {
+			c := e.choose(len(rest), "maporder")
+			if c != 0 {
+				changed = true
+			}
+			perm = append(perm, rest[c])
+			rest = append(rest[:c], rest[c+1:]...)
+		}
+		perm = append(perm, rest[0])
+		if changed && e.mapOrderBudget > 0 {
+			e.mapOrderBudget--
+		}
+		return perm
+	}
+	c := e.choose(n+2, "maporder")
+	if c == 0 {
+		return order
+	}
+	e.mapOrderBudget--
+	out := append([]*mapEntry(nil), order...)
+	switch {
+	case c <= n-1: // swap c-1, c
+		out[c-1], out[c] = out[c], out[c-1]
+	case c == n: // reverse
+		for i, j := 0, n-1; i < j; i, j = i+1, j-1 {
+			out[i], out[j] = out[j], out[i]
+		}
+	default: // rotate by one
+		out = append(out[1:], out[0])
+	}
+	return out
 }
